@@ -22,7 +22,7 @@ WrapOK(a, lo, hi, r, slack) ==
 
 \* ---------------------------------------------------------------- relation
 \* e.op = "conv":  x in unit e.u, read back as vd (degrees), vr (radians), vt (turns); scale 256 (vt: 65536)
-\*        "wrap":  a, lo, hi, r in degrees, scale 1024
+\*        "wrap":  a, lo, hi, r in degrees, scale 1024; below = 1 iff r < lo, above = 1 iff r > hi (exact f32 comparisons)
 \*        "arith": a, b, kf (scaled 64 / kf plain) and the results of + - * / min max clamp neg
 \*        "pyth":  polar(R, angle of (cx, sy)/kd): cart (x, y) must be R*(cx, sy)/k; scale 1024
 \*        "vec2":  v (scaled so that its largest component is ~2^13), polar (r, az degrees*64); vf and back
@@ -41,7 +41,8 @@ Allowed(e) ==
          /\ Near(e.vd * 256, 360 * e.vt, 1500 + Abs(e.vd) \div 40)
          \* 180 degrees = pi radians, with pi ~ 355/113 (8e-8)
          /\ Near(180 * 113 * e.vr, 355 * e.vd, 2 * 180 * 113 + 2 * 355 + Abs(e.vd) \div 30)
-    [] e.op = "wrap" -> e.panic = 0 /\ WrapOK(e.a, e.lo, e.hi, e.r, 2)
+    \* below / above: the result compared with the bounds as f32 values, exactly
+    [] e.op = "wrap" -> e.panic = 0 /\ WrapOK(e.a, e.lo, e.hi, e.r, 2) /\ e.below = 0 /\ e.above = 0
     [] e.op = "arith" ->
          /\ e.panic = 0
          /\ Near(e.add, e.a + e.b, 3) /\ Near(e.sub, e.a - e.b, 3) /\ Near(e.neg, -e.a, 2)
